@@ -270,6 +270,27 @@ def run(spec, ctx):
             expect_list(["--src-exclude", path] + hexopt(rng), want, "src-exclude", "reference code not in %s" %
                         [x.pel.primary_src().m["refcode"] for x in listed][:5])
             os.unlink(path)
+        if with_src and rng.random() < 0.4:
+            # a long exclude file (a BMC that has been up for a while): the listed codes sit ACROSS the multiples of 64 KiB,
+            # split at a drawn character, between comment lines that contain no reference code
+            listed = rng.sample(with_src, min(len(with_src), rng.choice([1, 2, 3])))
+            content = ""
+            for m, x in enumerate(listed, 1):
+                ref = x.pel.primary_src().m["refcode"]
+                fill = 65536 * m - (rng.randrange(1, len(ref)) if len(ref) > 1 else 0) - len(content)
+                content += "# filler\n" * (fill // 9) + ("#" * (fill % 9 - 1) + "\n" if fill % 9 else "")
+                content += ref + "\n"
+            if not any(e.pel.primary_src().m["refcode"] in content for e in with_src if e not in listed):
+                path = os.path.join(root, "exclude-%d-long.txt" % i)
+                with open(path, "w") as f:
+                    f.write(content)
+                ctx.count("srcexclude.long_file_queries")
+                ctx.see("srcexclude.long_file_kib", len(content) // 1024)
+                want = [e for e in with_src if e not in listed]
+                ctx.case("excl-long%r|%r" % ([x.name for x in listed], desc), True)
+                expect_list(["--src-exclude", path] + hexopt(rng), want, "src-exclude", "reference code not in a %d-byte file listing %s" %
+                            (len(content), [x.pel.primary_src().m["refcode"] for x in listed][:5]))
+                os.unlink(path)
         d.remove()
 
 
